@@ -151,6 +151,12 @@ OPERATORS = [
      "low end moved to the next leaf starts at its second entry"),
     ("findend-left-offset", "break", ["C02"], T, r"\*offset = pbucket->len - 1;", "*offset = pbucket->len;",
      "high end moved left lands behind the last entry"),
+    ("c-maxkey-offset", "break", ["C02"], T, r"        offset = bucket->len - 1;\n", "        offset = bucket->len;\n",
+     "maxKey() without a bound reads behind the last entry"),
+    ("c-minmax-end", "break", ["C02"], T, r"BTree_findRangeEnd\(self, key, min, 0, &bucket, &offset\)",
+     "BTree_findRangeEnd(self, key, min, 1, &bucket, &offset)", "minKey(b) / maxKey(b) search exclusively"),
+    ("c-leaf-maxkey", "break", ["C02"], B, r"        offset = self->len -1;\n", "        offset = 0;\n",
+     "leaf maxKey() without a bound answers with the first key"),
     ("py-minkey-gap", "break", ["C02"], PY,
      r"                compare\(bucket\.maxKey\(\), min\) < 0\n", "                compare(bucket.maxKey(), min) <= 0\n",
      "minKey moves to the next leaf although the bound is the leaf's last key"),
